@@ -73,6 +73,13 @@ CONFIGS = {
                    Pols="<- MCPolsMid", Users='{"u1"}', EncIds='{"e1"}'),
         thorough=dict(Script="<- Script_3dims", Dims='{"D1", "D2", "D3"}', Hints="{FALSE, TRUE}", MaxAttrs=4, MaxUid=4, MaxSid=20,
                       Pols="<- MCPolsFull", Users='{"u1"}', EncIds='{"e1", "e2"}')),
+    "StaleMpk": dict(   # public keys re-derived between an edit and the next update, and used late
+        ops=["Disable", "DelAttr", "Rename", "Update", "Mpk", "Encaps", "KeyGen", "Rekey"],
+        ops_quick=["Disable", "DelAttr", "Update", "Mpk", "Encaps", "KeyGen"],
+        quick=dict(MaxSid=6, Users='{"u1"}', EncIds='{"e1"}', MaxMpk=4, Pols="<- MCPolsSmall",
+                   Script="<- Script_A", Dims='{"D2"}', Names='{"a", "b", "c"}', IdFromCount="FALSE"),
+        thorough=dict(MaxSid=12, Users='{"u1"}', EncIds='{"e1"}', MaxMpk=4, Pols="<- MCPolsSmall",
+                      Names='{"a", "b", "c"}', IdFromCount="FALSE")),
     "Ids": dict(
         ops=["KeyGen", "Refresh", "Clone", "RoundTrip", "Rekey", "Save", "Restore", "DropUsk"],
         ops_quick=["KeyGen", "Refresh", "RoundTrip", "Save", "Restore", "Rekey"],
@@ -84,7 +91,7 @@ CONFIGS = {
 FOR_PROP = {
     "C01": ["Static", "StaticHH", "StaticAA", "Static3"], "C02": ["Static", "StaticHH", "StaticAA", "Static3"],
     "C11": ["Static", "StaticHH", "Disable"],
-    "C03": ["Edits", "Alias"], "C04": ["Rotation"], "C05": ["Revocation"], "C06": ["Disable"],
+    "C03": ["Edits", "Alias", "StaleMpk"], "C04": ["Rotation"], "C05": ["Revocation"], "C06": ["Disable", "StaleMpk"],
     "C09": ["Edits", "Revocation"], "C10": ["Revocation", "Edits"], "C13": ["Ids"], "C16": ["Rotation"],
     "C17": ["Ids"], "C18": ["Recaps"],
 }
@@ -315,12 +322,13 @@ def run_for(prop, tier, wd):
         log(f"[mc] {name}/{tier}: {m['distinct']} distinct, {m['generated']} generated, completed={m['completed']}, "
             f"violations={len(m['violations'])}")
         res.append(m)
-    # behaviours of the first configuration, replayed on the real code
+    # behaviours of the model, replayed on the real code
     names = [n for n in FOR_PROP.get(prop, []) if n != "Alias"]
-    if names:
+    # (quick: of the first configuration; thorough: of every configuration)
+    for n in (names[:1] if tier == "quick" else names):
         num, depth = (40, 22) if tier == "quick" else (400, 30)
-        s = simulate(names[0], tier, wd, num, depth)
-        log(f"[sim] {names[0]}: {s['n_behaviours']} behaviours")
+        s = simulate(n, tier, wd, num, depth)
+        log(f"[sim] {n}: {s['n_behaviours']} behaviours")
         res.append(s)
     if tier == "thorough":
         st = selftest(prop, wd)
